@@ -33,6 +33,7 @@ CONSTANTS
     ClosedMeansNotFound,    \* D2: a stream whose pull hits a closed mailbox ends with NOT_FOUND
     PullWatchesDeleted,     \* D3: a blocked pull also waits on the deletion signal
     AttachDetached,         \* D4: the attach step of create runs in its own task
+    PullHandsOnWakeup,      \* D7: a pull dropped while it waits for a mailbox permit re-notifies
     \* --- design mutations (must be FALSE in the real configurations)
     NoRenotifyAfterPartialPull,
     SignalCreatedAfterPull,
@@ -409,7 +410,15 @@ Cancel(p) ==
     /\ IF Kind[p] = "create" /\ AttachDetached
        THEN UNCHANGED tbox       \* the attach step runs in its own task and is not dropped
        ELSE tbox' = Withdraw(tbox, p)
-    /\ LET d == DropSig(p) IN waiters' = d[1] /\ permit' = d[2] /\ sig' = d[3]
+    /\ LET d  == DropSig(p)
+           s  == Target[p]
+           \* a pull that is dropped while its send is parked passes the wake-up on (repaired)
+           parkedPull == /\ PullHandsOnWakeup /\ Kind[p] \in {"pull", "bpull", "stream"} /\ pc[p] = "wait"
+                         /\ HasReq(sbox[s], p) /\ ~InBox(sbox[s], PosOf(sbox[s], p))
+           n  == NotifyOne(s, d[1], d[2], d[3])
+       IN IF parkedPull
+          THEN waiters' = n[1] /\ permit' = n[2] /\ sig' = n[3]
+          ELSE waiters' = d[1] /\ permit' = d[2] /\ sig' = d[3]
     /\ UNCHANGED <<tclosed, sclosed, tbusy, tpub, attached, exists, sbusy, sdeleter, deleted, backlog, leased,
                    expiries, gen, delsig, sgen, got>>
 
